@@ -129,22 +129,25 @@ def check_encoding(ctx, tree, ns, rooted, where, pre_topology=None, flags=None):
             return None
         seen_bips.append(b)
     enc = tree.bipartition_encoding
+    mutable = bool(flags and flags.get("is_bipartitions_mutable"))
     if enc is not None:
         if len(enc) != len(seen_bips) or set(map(id, enc)) != set(map(id, seen_bips)):
             ctx.violation("%s|encoding-list-not-the-edges'-bipartitions" % where,
                           "bipartition_encoding has %d entries for %d edges" % (len(enc), len(seen_bips)),
                           {"tree": ref.to_newick(spec), "flags": flags})
             return None
-        try:
-            tree._split_bitmask_edge_map = None
-            tree._bipartition_edge_map = None
-            sbem = tree.split_bitmask_edge_map
-        except Exception as e:
-            ctx.violation("%s|edge-map-unbuildable|%s" % (where, type(e).__name__),
-                          "split_bitmask_edge_map cannot be built from the encoded tree: %s" % e,
-                          {"tree": ref.to_newick(spec), "flags": flags})
-            return None
-        for s, c in cl:
+        sbem = None
+        if not mutable:     # (mutable bipartitions are documented as unhashable: no edge map can be asked for)
+            try:
+                tree._split_bitmask_edge_map = None
+                tree._bipartition_edge_map = None
+                sbem = tree.split_bitmask_edge_map
+            except Exception as e:
+                ctx.violation("%s|edge-map-unbuildable|%s" % (where, type(e).__name__),
+                              "split_bitmask_edge_map cannot be built from the encoded tree: %s" % e,
+                              {"tree": ref.to_newick(spec), "flags": flags})
+                return None
+        for s, c in (cl if sbem is not None else []):
             e = nm[id(s)]._edge
             got = sbem.get(e.bipartition.split_bitmask)
             if got is None or got.bipartition.split_bitmask != e.bipartition.split_bitmask:
